@@ -116,6 +116,7 @@ def make_cfg(
 
 
 _STATES_RE = re.compile(r"(\d+) states generated, (\d+) distinct states found")
+_SIM_RE = re.compile(r"The number of states generated: (\d+)")
 _DEPTH_RE = re.compile(r"depth of the complete state graph search is (\d+)")
 _COV_RE = re.compile(r"^<(\w+) line \d+, col \d+ to line \d+, col \d+ of module (\w+)>: (\d+):(\d+)")
 
@@ -204,6 +205,9 @@ def run_tlc(
             m = _STATES_RE.search(s)
             if m:
                 res.generated, res.distinct = int(m.group(1)), int(m.group(2))
+            m = _SIM_RE.search(s)
+            if m:
+                res.generated = res.distinct = int(m.group(1))
             m = _DEPTH_RE.search(s)
             if m:
                 res.depth = int(m.group(1))
